@@ -266,7 +266,8 @@ def cases(rng, tier):
     dz = S.deser_chain_cases(random.Random("dz" + str(rng.getstate()[1][0])), tier, 150 if tier == "quick" else 2500)
     # the element-wise oracle of C02's extras stream, in C01's direction: a leaf value the BARE field rejects must not be
     # accepted at a nested position (oracle-only kinds: enums by value, date / datetime fields, bounded DecimalNumber ...)
-    return base + ext + tp + dec + dz + nestedhook_cases() + X.directed_ctor_cases() + X.decimal_cases()
+    nh = S.nested_hook_cases(random.Random("nh" + str(rng.getstate()[1][0])), tier, 40 if tier == "quick" else 600)
+    return base + ext + tp + dec + dz + nh + nestedhook_cases() + X.directed_ctor_cases() + X.decimal_cases()
 
 
 def search_cases(rng, tier):
@@ -366,6 +367,9 @@ def judge(case, impl, model):
     if "unbuildable" in impl or "abstraction_mismatch" in impl:
         return msg, fails
     kind = S.top_kind(case)
+    if model.get("implNestedHooksOk") is False:
+        fails.append((f"ill-formed-instance:nested-hook:allInst:{kind}", "the returned instance holds a nested instance that the hook of its class refuses: "
+                      + json.dumps(impl.get("chain", {}).get("ok") or impl.get("ok"))[:300]))
     if "implWellFormed" in model and not model["implWellFormed"]:
         via = "chain " + json.dumps([o["op"] for o in impl["chain"].get("applied", [])]) if impl.get("chain", {}).get("ok") else "constructor"
         final = impl.get("chain", {}).get("ok") or impl.get("ok")
